@@ -46,6 +46,7 @@ from functools import singledispatchmethod
 from ufl.algorithms.map_integrands import map_integrands
 from ufl.algorithms.remove_component_tensors import IndexReplacer
 from ufl.classes import (
+    ComponentTensor,
     Division,
     Expr,
     Identity,
@@ -57,9 +58,10 @@ from ufl.classes import (
     Product,
 )
 from ufl.constantvalue import ScalarValue, Zero, as_ufl
-from ufl.core.multiindex import FixedIndex, MultiIndex
+from ufl.core.multiindex import FixedIndex, Index, MultiIndex
 from ufl.corealg.dag_traverser import DAGTraverser
 from ufl.corealg.map_dag import map_expr_dag
+from ufl.corealg.traversal import unique_pre_traversal
 from ufl.domain import extract_unique_domain
 
 
@@ -159,6 +161,10 @@ class IndexSumSimplifier(DAGTraverser):
             for f1, f2 in ((with_k[0], with_k[1]), (with_k[1], with_k[0])):
                 if isinstance(f1, Indexed) and isinstance(f2, IndexSum):
                     summand, (j,) = f2.ufl_operands
+                    if j.count() in f1.ufl_free_indices:
+                        # The same Index object is free in f1 and bound in f2:
+                        # f1 cannot be moved inside the sum over j
+                        continue
                     inner = self._cancel(_flatten_product(summand, [f1]), k)
                     if inner is not None:
                         return _make_product(rest + [self._index_sum(inner, j)])
@@ -230,6 +236,14 @@ class JacobianCanceller(IndexSumSimplifier):
         return None
 
 
+def _binds_index(expr, a):
+    """Return True if a is bound by an IndexSum or ComponentTensor inside expr."""
+    for node in unique_pre_traversal(expr):
+        if isinstance(node, IndexSum | ComponentTensor) and a in node.ufl_operands[1].indices():
+            return True
+    return False
+
+
 def _identity_index(f, k):
     """If f is Identity[a, k] or Identity[k, a] with a != k, return a."""
     if isinstance(f, Indexed):
@@ -254,7 +268,12 @@ class IdentityEliminator(IndexSumSimplifier):
                 others = with_k[:i] + with_k[i + 1 :] + rest
                 if not others:
                     return None
-                return self._substitute(_make_product(others), k, a)
+                product = _make_product(others)
+                if isinstance(a, Index) and _binds_index(product, a):
+                    # Substituting k -> a would be captured by an inner
+                    # sum or component tensor that reuses the Index object a
+                    return None
+                return self._substitute(product, k, a)
         return None
 
     # Work around singledispatchmethod inheritance issue;
@@ -285,6 +304,10 @@ def _as_base_exponent(f):
     if isinstance(f, Power):
         base, exponent = f.ufl_operands
         if isinstance(exponent, ScalarValue) and not isinstance(exponent._value, complex):
+            if isinstance(base, Power | Division) and exponent._value != int(exponent._value):
+                # (x**a)**b == x**(a*b) only holds for integer b, e.g.
+                # (x**2)**0.5 is |x|: treat the inner power as an opaque base
+                return f, 1
             pair = _as_base_exponent(base)
             if pair is not None:
                 base, inner = pair
